@@ -229,6 +229,15 @@ impl RoutingTable {
         }
     }
 
+    /// Insert a peer under a crafted key (verification only).
+    #[cfg(litep2p_verif)]
+    pub fn verif_insert_raw(&mut self, key: Key<PeerId>, peer: KademliaPeer) -> bool {
+        match BucketIndex::new(&self.local_key.distance(&key)) {
+            None => false,
+            Some(index) => self.buckets[index.get()].verif_push_raw(peer, key),
+        }
+    }
+
     /// Get `limit` closest peers to `target` from the k-buckets.
     pub fn closest<K: Clone>(&mut self, target: &Key<K>, limit: usize) -> Vec<KademliaPeer> {
         ClosestBucketsIter::new(self.local_key.distance(&target))
